@@ -52,9 +52,16 @@
 //    (SO_SNDBUF/SO_RCVBUF can additionally be made tiny: Config::lib_sndbuf / connect_to(..,rcvbuf).)
 //    step() detects quiescence by "no bytes moved through send/recv/accept for 3 rounds", so a
 //    budget-blocked writer (EPOLLOUT level-triggered forever) does not spin.
-//  * Handshake quirk: bytes that follow the peer's handshake in the same segment are handed to the
-//    new PeerConnection but only parsed when MORE data arrives. Send handshake + keepalive() first
-//    (the keep-alive ends the library's handshake phase), pump, then send messages.
+//  * Handshake hand-over: bytes that follow the peer's handshake in the same segment are handed to
+//    the new PeerConnection as "unread" data. Since /repo commit 5c4764e complete messages among
+//    them are dispatched at once (before that fix they were parsed only when MORE data arrived).
+//    An INCOMPLETE trailing message still waits for the rest. The library's handshake phase ends at
+//    the first keep-alive or non-bitfield/extension/port message: sending handshake + keepalive()
+//    first, pump, then the scenario keeps "what the handshake consumed" out of your byte accounting.
+//  * Ephemeral ports collide across source addresses (127.0.0.2:40000 and 127.0.0.3:40000 can both
+//    exist): identify a peer by ADDRESS AND PORT -- find_connection(T, P.local_ip(), P.local_port()),
+//    set_send_budget(P.local_ip(), P.local_port(), n). The port-only forms remain (they match any
+//    address; an exact (address, port) limit takes precedence over a port-only one).
 //  * WirePeer re-arms TCP_QUICKACK after every read: otherwise Nagle on the library's socket +
 //    delayed ACKs make small writes arrive tens of ms (REAL time) late and pump() would stop early.
 //  * NetworkConfig setters (block_ipv6, buffer sizes, bind address, ...) schedule a delayed change
@@ -201,7 +208,10 @@ public:
 
   // ----- peers
   // Connection of torrent t whose remote TCP port is peer_port (i.e. WirePeer::local_port()), or null.
+  // Port-only form: first connection with that remote port whatever its address (ambiguous when
+  // peers use several source addresses); prefer the (address, port) form.
   torrent::PeerConnectionBase* find_connection(Torrent* t, uint16_t peer_port);
+  torrent::PeerConnectionBase* find_connection(Torrent* t, const std::string& peer_ip, uint16_t peer_port);
   size_t connection_count(Torrent* t);
   size_t handshake_count();
   // Outgoing: feed ip:port through PeerList::insert_available and trigger receive_connect_peers.
@@ -222,6 +232,11 @@ public:
   static void add_send_budget(uint16_t peer_port, int64_t bytes);
   static int64_t send_budget(uint16_t peer_port);
   static void set_recv_chunk(uint16_t peer_port, uint32_t max_per_call);   // 0: unlimited
+  // (address, port) forms; ip "" = any address (same as the port-only forms)
+  static void set_send_budget(const std::string& peer_ip, uint16_t peer_port, int64_t bytes);
+  static void add_send_budget(const std::string& peer_ip, uint16_t peer_port, int64_t bytes);
+  static int64_t send_budget(const std::string& peer_ip, uint16_t peer_port);
+  static void set_recv_chunk(const std::string& peer_ip, uint16_t peer_port, uint32_t max_per_call);
   static void clear_io_limits();
   static uint64_t io_bytes_moved();     // total successful send+recv bytes of the library
 
